@@ -111,18 +111,21 @@ def run_history(item):
     #      again from the same start (same file periods); whatever it does with leftovers of the dead
     #      session, the invariants on final-named files must still hold afterwards
     if ops[0][0] == "open" and not any(o[0] == "open" for o in ops[1:]):
-        ops2 = [("open", {"uuid": "restarted-session"}), ("w", 0, 3), ("w", 40, 2), ("close",)]
+        ops2_variants = [[("open", {"uuid": "restarted-session"}), ("w", 0, 3), ("close",)],
+                         [("open", {"uuid": "restarted-session"}), ("w", 0, 3), ("w", 40, 2), ("close",)]]
         m2 = rf.Model()
         m2.open_session(rf.Cfg(**dict(cfg, uuid="restarted-session")))
-        for op in ops2[1:3]:
+        for op in ops2_variants[1][1:3]:
             g, b, length = rf.op_blocks(op, m2.cursor)
             m2.apply_write(g, b, rf.row_bytes(rf.values_for(cfg, seed, g, b, length)))
         step = 1 if tier_is_thorough() else 2
-        for i in range(0, nops + 1, step):
+        for i, ops2 in [(i_, o_) for i_ in range(0, nops + 1, step) for o_ in ops2_variants]:
             top3 = core.new_scratch()
             try:
-                host.run(top3, os.path.join(top3, cfg["ch"]), cfg, ops, seed, fsctl.plan(kill_at=i))
+                rk = host.run(top3, os.path.join(top3, cfg["ch"]), cfg, ops, seed, fsctl.plan(kill_at=i))
                 obs = crash.Observer(top3, cfg)
+                # record what is published at the moment of the kill: it must still be there, unchanged, afterwards
+                obs.observe(allowed_by_call[min(len(rk["calls"]), len(allowed_by_call) - 1)], "right after kill at op %d" % i, check_reader=False)
                 r4 = host.run(top3, os.path.join(top3, cfg["ch"]), cfg, ops2, seed, fsctl.plan())
                 allowed = dict(final)
                 allowed.update(m2.written)
@@ -167,7 +170,7 @@ def main(tier):
     hs = histories(tier)
     rot = core.seed() % len(hs)
     hs = hs[rot:] + hs[:rot]
-    for part in core.pmap(run_history, hs, chunksize=1):
+    for part in core.pmap(run_history, hs, chunksize=1, isolate=False):
         chk.merge(part)
     chk.nontrivial = chk.state_hashes
     return chk.finish()
